@@ -190,6 +190,12 @@ func CheckC09(p *Pkg, e *Env, r *res.Result) {
 		return
 	}
 	in := NewInst(p)
+	// secured operations are reached too: every authenticator admits (admission is C11's
+	// question); the credential fields of the parameter value travel like any other
+	if p.Doc.Components != nil && len(p.Doc.Components.SecuritySchemes) > 0 {
+		var authEvents []string
+		NewSecHarness(in, &authEvents).InstallAcceptAll()
+	}
 	var ops []*Op
 	for _, op := range p.Ops {
 		if op.ClientMethod == "" {
@@ -236,6 +242,25 @@ func CheckC09(p *Pkg, e *Env, r *res.Result) {
 	prop := func(t *rapid.T) {
 		op := ops[rapid.IntRange(0, len(ops)-1).Draw(t, "op")]
 		params, raw, g := GenParams(t, p, op, nil)
+		// a secured operation is called with its credentials: every credential field of the
+		// request type (Authorization, the api-key headers) is set
+		if hf := params.FieldByName("Headers"); hf.IsValid() && len(p.Doc.EffectiveSecurity(op.Spec)) > 0 {
+			for name, sch := range p.Doc.Components.SecuritySchemes {
+				want := ""
+				switch refmodel.SchemeKind(sch) {
+				case "bearer":
+					want = "authorization"
+				case "apikey-header":
+					want = Norm(sch.Name)
+				}
+				for i := 0; want != "" && i < hf.NumField(); i++ {
+					if f := hf.Field(i); Norm(hf.Type().Field(i).Name) == want && isOptionStruct(f.Type()) && !f.Field(0).Bool() && f.Field(1).Kind() == reflect.String {
+						f.Field(0).SetBool(true)
+						f.Field(1).SetString("credential-of-" + name)
+					}
+				}
+			}
+		}
 		useReal := realClient.IsValid() && rapid.IntRange(0, 9).Draw(t, "real") == 0
 		fail := func(clause, msg string) {
 			target := ""
